@@ -99,6 +99,12 @@ def battery():  # noqa: C901
     for i, t in enumerate(REFERENCE_STYLES):
         rec(f'parseStyle[{i}]', lambda t=t: cssutils.parseStyle(t).cssText)
     rec('validate', lambda: [cssutils.profile.validate('color', 'red'), cssutils.profile.validate('color', '4'), cssutils.profile.validate('zzz', '4')])
+    # the verdict of one (name, value) pair depends on the CONTEXT (an @font-face descriptor vs. the property of an ordinary rule), never on
+    # which of the two was validated first - in this call or in an earlier one
+    rec('valid flags: @font-face descriptors vs ordinary properties', lambda: [
+        [[p.valid for p in r.style.getProperties(all=True)] for r in cssutils.parseString(t).cssRules]
+        for t in ('@font-face { font-weight: bolder; font-style: inherit; font-family: x } p { font-weight: bolder; font-style: inherit }',
+                  'p { font-stretch: wider } @font-face { font-stretch: wider; font-family: x }')])
 
     # DOM edits that must raise (in the default, raising mode outside a parse)
     def edit(make, act):
@@ -155,6 +161,8 @@ def _pool():  # noqa: C901
     # -- parse / csscombine calls (monitored for the global modes)
     P['parse: well-formed sheet'] = (True, lambda env: cssutils.CSSParser(fetcher=_fetch_ok).parseString(REFERENCE_SHEETS[1], href='http://example.com/s.css'))
     P['parse: malformed sheet'] = (True, lambda env: cssutils.parseString(MALFORMED_SHEET))
+    # values that are valid for the ordinary property but not for the @font-face descriptor of the same name, validated in the ordinary context
+    P['parse: descriptor values in an ordinary rule'] = (True, lambda env: cssutils.parseString('p { font-weight: bolder; font-style: inherit; font-stretch: wider }'))
     P['parse: malformed style'] = (True, lambda env: cssutils.parseStyle(MALFORMED_STYLE))
     P['parse: unclosed constructs'] = (True, lambda env: cssutils.parseString('@media print { a { color: "x'))
     P['parse: sheet ending in media query junk'] = (True, lambda env: cssutils.parseString('@import "x" print foo; @media tv bar { }'))
@@ -648,7 +656,7 @@ def _witness(worker, job):
 # --------------------------------------------------------------------------------------------------------------------
 # entry points
 
-QUICK_POOL = ['parse: well-formed sheet', 'parse: malformed sheet', 'parse: malformed style', 'parse: sheet ending in media query junk', 'parse: undecodable bytes, encoding given',
+QUICK_POOL = ['parse: well-formed sheet', 'parse: malformed sheet', 'parse: descriptor values in an ordinary rule', 'parse: malformed style', 'parse: sheet ending in media query junk', 'parse: undecodable bytes, encoding given',
               'parse: fetcher raises', 'parse: fetcher returns undecodable', 'parseUrl: fetcher raises', 'parseFile: missing file', 'parseFile: undecodable file',
               'parse: raising parser, malformed sheet', 'parse: raising parser, media junk', 'parse: comments off, not validating', 'csscombine: minify=True resolveVariables=False', 'csscombine: minify=False resolveVariables=True',
               'csscombine: minify=False resolveVariables=False', 'csscombine: undecodable', 'MediaList.appendMedium: and + ident', 'MediaQuery: and + ident',
